@@ -168,7 +168,7 @@ TRUSTED = [
     "readBasis: `Desc l_desc(thedesc)` copies into two scratch arrays with UNSPECIFIED contents (readBasis overwrites every entry); load(theLP, false), setStatus(REGULAR), loadDesc(l_desc) are recorded (loadDesc snapshots the descriptor at the ghost indices); supplied name sets have exactly one name per row / column (number() < nRows / nCols): precondition",
     "the contracts of readBasis are relative to LPRowSetBase::type, dualRowStatus, dualColStatus as the REAL bodies compute them at the ghost indices; the same postcondition checks those values against their specification",
     "writeBasisFile (SoPlexBase): _rowTypes is assumed to be dimensioned like _basisStatusRows (it is maintained only while a rational LP is kept, i.e. not in SYNCMODE_ONLYREAL: with cpxFormat = true and an empty _rowTypes the real code reads out of bounds; not reproduced natively); _solver.writeBasisFile is a recorded stub; std::ofstream::good() is arbitrary",
-    "sides/bounds at the ghost indices are not NaN (reader); vectors capped at CAP rows / columns (6 quick, 24 thorough): the loop proofs are inductive, the cap bounds the object size only; assert() compiled out, the #ifndef NDEBUG blocks are excluded; termination of the record loop of readBasis is not claimed (it depends on the stream)",
+    "sides/bounds at the ghost indices are not NaN (reader); vectors capped at CAP rows / columns (6 quick, 12 thorough): the loop proofs are inductive, the cap bounds the object size only; assert() compiled out, the #ifndef NDEBUG blocks are excluded; termination of the record loop of readBasis is not claimed (it depends on the stream)",
 ]
 
 def mut(name, slice_, find, replace, regex=False):
@@ -288,11 +288,12 @@ unit = {
     "property": ["C14"],
     "desc": "basis files: SPxBasisBase<R>::writeBasis and readBasis (spxbasis.hpp) over ghost-recording stream / name-set / MPSInput stubs",
     "rmode": "R = double (IEEE, bit-precise; only comparisons with +-infinity and equality of bounds are used)",
-    "defines": {"CAP": "6"}, "defines_thorough": {"CAP": "24"}, "defines_small": {"CAP": "3"},
+    "defines": {"CAP": "6"}, "defines_thorough": {"CAP": "12"}, "defines_small": {"CAP": "3"},
     "flags": ["--bounds-check", "--pointer-check", "--signed-overflow-check"],
-    "timeout_s": 280,
+    "timeout_s": 400,
     "extracts": EXTRACTS, "constants": CONSTANTS, "conformance": CONFORMANCE,
     "trusted": TRUSTED,
+    "replay": {"cpp": "replay.cpp", "asan": False, "extra_src": ["LIB"]},
     "instances": instances,
 }
 json.dump(unit, open(os.path.join(os.path.dirname(os.path.abspath(__file__)), "unit.json"), "w"), indent=1)
